@@ -194,6 +194,12 @@ TablesInRange(T) ==
   /\ Len(T.cci) = nf
   /\ \A f \in 1..Len(T.cci) : Len(T.cci[f]) = 2 /\ \A sd \in 1..2 : Range(T.cci[f][sd]) \subseteq 0..Pow2(n) - 1
 
+\* ... with the meaning the names have in the code ("identify all faces on the outer boundary of the grid"): in two and
+\* three dimensions a face is exterior iff one of its two cells lies on the outer boundary in a tangential direction, and
+\* interior otherwise (in 1-D the as-built split is a convention of its own: drift only)
+ExteriorFacesTouchBoundary(T) ==
+  Len(T.shape) = 1 \/ \A d \in Axes(T.shape) : Range(T.interior[d]) = {f \in Range(T.faces[d]) : IsInteriorFace(T.shape, f)}
+
 GridClauses(T) ==
   << <<"TablesInRange", TablesInRange(T)>>,
      <<"CellsWellNumbered", CellsWellNumbered(T)>>,
@@ -203,6 +209,7 @@ GridClauses(T) ==
      <<"RevIsInverse", IF TablesInRange(T) THEN RevIsInverse(T) ELSE TRUE>>,
      <<"NoFaceOnlyOnBoundary", IF TablesInRange(T) THEN NoFaceOnlyOnBoundary(T) ELSE TRUE>>,
      <<"InteriorExteriorPartition", IF TablesInRange(T) THEN InteriorExteriorPartition(T) ELSE TRUE>>,
+     <<"ExteriorFacesTouchBoundary", IF TablesInRange(T) /\ FaceCounts(T) THEN ExteriorFacesTouchBoundary(T) ELSE TRUE>>,
      <<"CornersOnFace", IF TablesInRange(T) THEN CornersOnFace(T) ELSE TRUE>> >>
 
 AllFail(cl) == {cl[i][1] : i \in {j \in DOMAIN cl : ~cl[j][2]}}
